@@ -54,6 +54,8 @@ def run(rep, idx, tier):
     rep.require("C19.15", 2)
     rep.require("C19.16", 15)
     rep.require("C19.17", 1)
+    rep.require("C19.18", 1)
+    rep.require("C19.19", 3)
     rules(rep, idx, fixture=False)
     # positive fixture: the same rules must flag the committed bad example on every run
     fx = Index(os.path.join(os.path.dirname(os.path.dirname(os.path.abspath(__file__))), "fixtures", "c19"))
@@ -104,6 +106,12 @@ def rules(rep, idx, fixture):
     if not fixture:
         from .c20 import plain_member_directions
         plain_member_directions(rep, idx, "C19.13")
+        # ... and the same for the members of interface-typed ports, with no port exempted: a member that is an *input* of the
+        # component under the port's declared orientation and that elaborate() drives has two drivers when the component is
+        # converted on its own (DriverConflict, an internal error)
+        from .c20 import drivers as _port_drivers
+        from ..core.pol import Pol as _Pol
+        _port_drivers(rep, idx, _Pol(idx), rule="C19.13", exempt=())
         clamped_pattern_width(rep, idx)
         computed_submodule_names(rep, idx)
         # A1 (asserts are invariants that may be ignored -- python -O removes them) is only sound when no assert changes state
@@ -111,6 +119,8 @@ def rules(rep, idx, fixture):
         _glue16.pure_asserts(rep, "C19.16", idx, ("",))
         # an accepted layout is never refused at elaboration for want of one more doubling of the shadow
         _glue16.shadow_give_up_bound(rep, idx, "C19.17")
+        negative_slice_bounds(rep, idx)
+        division_after_validation(rep, idx)
     if not fixture:
         from . import glue as _glue
         _glue.param_refusals(rep, "C19.12", idx)
@@ -292,6 +302,133 @@ def shared_state(rep, idx, rule="C19.9", classes=None):
                             "objects then share one container, and what is later added to one of them appears in the other (a name assigned in "
                             "one map becomes taken in an unrelated one)", line=st.lineno)
     rep.count("adopted_containers", m_)
+
+
+# ---- C19.18 x[:-n] with n == 0; C19.19 division by a parameter before it is validated -----------------------------
+def negative_slice_bounds(rep, idx, rule="C19.18", modules=None):
+    """`x[:-n]` drops the last n items only for n >= 1: for n == 0 the bound is `-0 == 0` and the slice is *empty*.  A slice whose
+    upper bound is the negation of a computed quantity must be guarded against zero (`x[:-n if n > 0 else None]`, `if n: ...`), or the
+    quantity must be a length that the code shows to be positive."""
+    n = 0
+    for f in idx.all_functions():
+        if modules is not None and f.module.rel not in modules:
+            continue
+        parents = {}
+        for x in ast.walk(f.node):
+            for ch in ast.iter_child_nodes(x):
+                parents[ch] = x
+        for x in ast.walk(f.node):
+            if not (isinstance(x, ast.Subscript) and isinstance(x.slice, ast.Slice) and x.slice.upper is not None):
+                continue
+            up = x.slice.upper
+            guarded_here = False
+            if isinstance(up, ast.IfExp):
+                # -n if n > 0 else None
+                cands = [(up.body, up.test), (up.orelse, up.test)]
+                negs = [b for b, _ in cands if isinstance(b, ast.UnaryOp) and isinstance(b.op, ast.USub)]
+                if negs and any(isinstance(b, ast.Constant) and b.value is None for b, _ in cands):
+                    n += 1
+                    guarded_here = True
+                    q = ast.unparse(negs[0].operand)
+                    rep.check(q in ast.unparse(up.test), rule, f.site, f"`{ast.unparse(x)[:60]}`: the negated bound is guarded against zero",
+                              f"the guard `{ast.unparse(up.test)}` does not mention `{q}`", nontrivial=False)
+                continue
+            if not (isinstance(up, ast.UnaryOp) and isinstance(up.op, ast.USub)) or isinstance(up.operand, ast.Constant):
+                continue
+            n += 1
+            q = ast.unparse(up.operand)
+            # an enclosing test on the same quantity
+            guard = None
+            a = parents.get(x)
+            while a is not None and a is not f.node:
+                if isinstance(a, (ast.If, ast.IfExp, ast.While)) and q in ast.unparse(a.test):
+                    guard = a.test
+                    break
+                a = parents.get(a)
+            if guard is not None:
+                rep.ok(rule, f.site, f"`{ast.unparse(x)[:60]}`: the negated bound is guarded against zero", f"under `{ast.unparse(guard)[:60]}`",
+                       nontrivial=False)
+            else:
+                rep.bad(rule, f.site, f"`{ast.unparse(x)[:60]}`",
+                        f"the upper bound `-{q}` is 0 when `{q}` is 0, and `x[:0]` is the empty slice, not the whole sequence: the case "
+                        f"`{q} == 0` (nothing to drop: a window as wide as the bus, no granularity bits) silently yields nothing", line=x.lineno)
+    rep.ok(rule, "-", "no slice with an unguarded negated upper bound", f"{n} slice(s) with a negated computed bound examined", nontrivial=False)
+
+
+def division_after_validation(rep, idx, rule="C19.19"):
+    """A constructor (or add()-style method) that divides by a value derived from one of its parameters does so only after that
+    parameter was validated -- by an `if ...: raise` of its own that mentions it, or by handing it to a constructor / helper of
+    the package that raises (Signature(...), MemoryMap(...), self._check_parameters(...)).  Otherwise a zero passes straight into
+    `//` / `%` and the caller sees ZeroDivisionError, an internal error, instead of the descriptive refusal a few lines further
+    down.  "Before" is execution order of the (canonical, helper-inlined) body, not line numbers."""
+    n = 0
+    for f in idx.all_functions():
+        if f.cls is None or f.name not in ("__init__", "add", "add_resource", "add_window", "align_to", "as_memory_map") or not f.params:
+            continue
+        params = [p for p in f.params if p not in ("self", "cls")]
+        if not params:
+            continue
+        pos = {}
+
+        endpos = {}
+
+        def number(node):
+            pos[id(node)] = len(pos)
+            for ch in ast.iter_child_nodes(node):
+                number(ch)
+            endpos[id(node)] = len(pos) - 0.5               # after everything inside the node has been evaluated
+        number(f.node)
+        # names standing for a parameter: the parameter, and locals bound (once) to it or to a tuple/table row holding it
+        valid = {p: [] for p in params}
+        for x in ast.walk(f.node):
+            if isinstance(x, ast.If) and any(isinstance(y, ast.Raise) for y in ast.walk(x)):
+                for p in params:
+                    if any(isinstance(y, ast.Name) and y.id == p for y in ast.walk(x.test)):
+                        valid[p].append(endpos[id(x.test)])
+            if isinstance(x, ast.Call):
+                raises = False
+                try:
+                    callee = idx.resolve_class(ir.from_ast(x.func, {}), f.module, f.cls)
+                    if callee is not None and callee.method("__init__") is not None:
+                        raises = any(isinstance(y, ast.Raise) for y in ast.walk(callee.method("__init__").node))
+                except Exception:
+                    pass
+                if not raises:
+                    h = None
+                    if isinstance(x.func, ast.Attribute) and isinstance(x.func.value, ast.Name) and x.func.value.id in ("self", "cls") or \
+                            isinstance(x.func, ast.Attribute) and isinstance(x.func.value, ast.Name) and x.func.value.id == f.cls.name:
+                        h = idx.lookup_method(f.cls, x.func.attr)
+                    elif isinstance(x.func, ast.Name):
+                        h = idx.resolve_function(f.module, x.func.id)
+                    if h is not None and h.node is not f.node:
+                        raises = any(isinstance(y, ast.Raise) for y in ast.walk(h.node))
+                if raises:
+                    for a_ in list(x.args) + [k.value for k in x.keywords]:
+                        if isinstance(a_, ast.Name) and a_.id in valid:
+                            valid[a_.id].append(endpos[id(x)])
+        for x in ast.walk(f.node):
+            if not (isinstance(x, ast.BinOp) and isinstance(x.op, (ast.FloorDiv, ast.Mod, ast.Div))):
+                continue
+            den = x.right
+            if isinstance(den, ast.BinOp) and isinstance(den.op, (ast.LShift, ast.Pow)):
+                continue                                    # 1 << k, 2 ** k: never zero
+            dn = [y.id for y in ast.walk(den) if isinstance(y, ast.Name) and y.id in valid and isinstance(y.ctx, ast.Load)]
+            # only denominators that are the parameter itself (or a product / difference of parameters), not attributes of objects
+            if not dn or any(isinstance(y, ast.Attribute) for y in ast.walk(den)):
+                continue
+            n += 1
+            for p in sorted(set(dn)):
+                before = [k for k in valid[p] if k < pos[id(x)]]
+                what = f"`{ast.unparse(x)[:60]}`: `{p}` is validated before it is divided by"
+                if before:
+                    rep.ok(rule, f.site, what, "a refusal that mentions it (or a validating callee that receives it) comes first", nontrivial=False)
+                elif valid[p]:
+                    rep.bad(rule, f.site, what,
+                            f"the division at line {x.lineno} is executed before the first validation of `{p}`: `{p} == 0` reaches "
+                            "the division and the caller gets ZeroDivisionError, an internal error, instead of the descriptive refusal", line=x.lineno)
+                else:
+                    rep.unk(rule, f.site, what, f"`{p}` is divided by and nothing in this function validates it")
+    rep.ok(rule, "-", "divisions by parameters come after their validation", f"{n} division(s) by a parameter examined", nontrivial=n > 0)
 
 
 # ---- C19.11 identity comparison between values -------------------------------------------------------------------
@@ -1338,9 +1475,27 @@ def raise_types(rep, idx):
                 elif key in EXC_TABLE:
                     used.add(key)
                     rep.ok("C19.5", f.site, what, "frozen table: " + EXC_TABLE[key], nontrivial=False)
+                elif exc == "KeyError" and _is_spelled_out_lookup(f, n):
+                    rep.ok("C19.5", f.site, what, "a dictionary look-up spelled `.get()` + `raise KeyError(key)`: what the subscript does by itself",
+                           nontrivial=False)
                 else:
                     rep.bad("C19.5", f.site, what, f"{exc} is neither ValueError nor TypeError and is not in the table of deliberate exceptions")
     rep.check(True, "C19.5", "-", "every explicit raise was classified", f"{len(used)}/{len(EXC_TABLE)} table entries in use")
+
+
+def _is_spelled_out_lookup(f, raise_node):
+    """`x = D.get(k)` ... `if x is None: raise KeyError(...)`: the KeyError a subscript look-up raises, written out."""
+    for st in ast.walk(f.node):
+        if isinstance(st, ast.If) and raise_node in st.body and isinstance(st.test, ast.Compare) and len(st.test.ops) == 1 and \
+                isinstance(st.test.ops[0], ast.Is) and isinstance(st.test.left, ast.Name) and \
+                isinstance(st.test.comparators[0], ast.Constant) and st.test.comparators[0].value is None:
+            nm = st.test.left.id
+            for a in ast.walk(f.node):
+                if isinstance(a, ast.Assign) and len(a.targets) == 1 and isinstance(a.targets[0], ast.Name) and a.targets[0].id == nm and \
+                        isinstance(a.value, ast.Call) and isinstance(a.value.func, ast.Attribute) and a.value.func.attr == "get" and \
+                        len(a.value.args) == 1:
+                    return True
+    return False
 
 
 # ---- C19.7 optional bus members -------------------------------------------------------------------------
